@@ -64,12 +64,15 @@ def triage(c, ops_file, impl_file, model_file, hbin, exe, budget_s):
         v.sort(key=len)
     t0 = time.time()
     rnd = 0
+    shrunk_n = 0
     while any(len(v) > rnd for v in groups.values()):
         for sig, v in sorted(groups.items()):
             if len(v) <= rnd:
                 continue
-            if rnd >= 3 and time.time() - t0 > budget_s:
+            # every signature is examined at least once (first 40); more cases of a signature while the budget lasts
+            if (rnd >= 1 and time.time() - t0 > budget_s) or (rnd == 0 and shrunk_n >= 40):
                 continue
+            shrunk_n += 1
             case = v[rnd]
             # pre-pass: reads that do not touch the state (get / chk-read) are dropped at once when the case still fails
             slim = [o for o in case[:-1] if o.split()[0] not in ("get", "chk-read", "chk-flush")] + case[-1:]
@@ -81,7 +84,7 @@ def triage(c, ops_file, impl_file, model_file, hbin, exe, budget_s):
                                       "property oracle fails on the implementation" if isprop else "model and implementation disagree",
                                       shrunk, det))
         rnd += 1
-        if rnd >= 3 and time.time() - t0 > budget_s:
+        if time.time() - t0 > budget_s:
             break
 
 
